@@ -11,6 +11,7 @@
     A <perm> <types>                             | <granted> <bits>
     H <q|m|d|a:action> <Type> [n=name] [p=a,b] [f=<filter>] [j]   | <status> <T/name,..|-> jn=.. ft=.. fast=..
     G <templates|variables|types|status|console>        | <status> <count>
+    K <users> / B <header hex> | <user|none|throw> dec=.. / N <cn hex> | <user|none>       authentication
   Output lines:
     MISMATCH line=<n> case=<k> what=<result|grant|access|http|join|handler> impl=<...> model=<...>
       (compared: success/failure and the returned objects — never error kinds, message texts or the order of provider calls)
@@ -31,7 +32,19 @@ def enc (s : String) : String := if s == "" then "%e" else s
 def splitC (s : String) (sep : String) : List String := if s == "" then [] else s.splitOn sep
 
 def typeOfTag (t : String) : Option String :=
-  if t == "H" then some "Host" else if t == "S" then some "Service" else none
+  if t == "H" then some "Host" else if t == "S" then some "Service"
+  else if t == "E" then some "Endpoint" else if t == "T" then some "TimePeriod" else none
+
+/-- command_endpoint / check_period of the inventory's checkables ("" = none) -/
+def parseInvJoins (s : String) : List (Obj × String × String) :=
+  if s == "-" then [] else
+  (s.splitOn ",").filterMap fun part =>
+    match part.splitOn ":" with
+    | t :: n :: _ :: rest =>
+      (typeOfTag t).map fun ty =>
+        let f := fun (x : Option String) => match x with | some "-" => "" | some v => v | none => ""
+        (({ type := ty, name := n } : Obj), f rest.head?, f (rest.drop 1).head?)
+    | _ => none
 
 def parseInv (s : String) : Option (List Obj) :=
   if s == "-" then some [] else
@@ -180,7 +193,11 @@ structure DSt where
   seenOutcomes : List (String × Except Err (List Obj)) := []
   orderPairs : Nat := 0
   orderPairsMixed : Nat := 0     -- ... where the outcome was an error or the permission filter is not null
+  authUsers : List AUser := []
+  nAuth : Nat := 0
+  nAuthOk : Nat := 0
   inv : List Obj := []
+  invJoins : List (Obj × String × String) := []
   user : User := []
   /-- some permission filter of the case reads `service` (the shape of the former finding F-C18a) -/
   readsService : Bool := false
@@ -419,7 +436,14 @@ def handleH (d : DSt) (n : Nat) (pre post : List String) : IO DSt := do
       | some v => [(type, (splitC v ",").map dec)]
       | none => []
     let hasF := (kvOf toks "f").isSome
-    let wantJoin := toks.contains "j" && verb == "q" && type == "Service"
+    let wantJoin := toks.contains "j" && verb == "q"
+    -- the joined objects of a returned object that are inventory objects: (field, joined object)
+    let joinCands (o : Obj) : List (String × Obj) :=
+      let (ce, cp) := ((d.invJoins.find? (·.1 == o)).map (·.2)).getD ("", "")
+      ((if o.type == "Service" then [("host", hostOf o)] else [])
+        ++ (if ce != "" then [("command_endpoint", ({ type := "Endpoint", name := ce } : Obj))] else [])
+        ++ (if cp != "" then [("check_period", ({ type := "TimePeriod", name := cp } : Obj))] else [])).filter
+        (fun fj => d.inv.contains fj.2)
     let ft := (kvOf kvs "ft").getD "-"
     let fast := (kvOf kvs "fast").getD "-"
     let jn := (kvOf kvs "jn").getD "-"
@@ -446,8 +470,8 @@ def handleH (d : DSt) (n : Nat) (pre post : List String) : IO DSt := do
                             caseHash := mixHash d.caseHash (hash (" ".intercalate pre)) }
       let joinOf (u' : User) : List String := match mres with
         | .ok objs => if !wantJoin then [] else
-            sortStrs ((objs.filter fun o => o.type == "Service" && d.inv.contains (hostOf o)
-                                          && accessGranted u' "objects/query/Host" (hostOf o)).map (·.name))
+            sortStrs (objs.flatMap fun o =>
+              ((joinCands o).filter fun fj => joinIncluded u' fj.2).map fun fj => s!"{o.name}>{fj.1}")
         | .error _ => []
       let showJoin (l : List String) : String := if l.isEmpty then "-" else ",".intercalate l
       let mjoin := joinOf d.user
@@ -494,19 +518,30 @@ def handleH (d : DSt) (n : Nat) (pre post : List String) : IO DSt := do
             d := { d with specfails := d.specfails + 1 }
           | none => pure ()
         | none => d := { d with seenOutcomes := (key, obs.result) :: d.seenOutcomes }
-      for sn in splitC (if jn == "-" then "" else jn) "," do
-        match specAccess d.user "objects/query/Host" (hostOf { type := "Service", name := sn }) true with
-        | some cl =>
-          IO.println s!"SPECFAIL line={n} case={d.caseNo} clause={cl.name}"
-          d := { d with specfails := d.specfails + 1 }
-        | none => pure ()
+      -- every joined object the implementation serialized must be allowed under the permission of ITS type
+      for entry in splitC (if jn == "-" then "" else jn) "," do
+        match entry.splitOn ">" with
+        | [on, field] =>
+          match (joinCands { type := type, name := on }).lookup field with
+          | some joined =>
+            match specJoin d.user joined true with
+            | some cl =>
+              IO.println s!"SPECFAIL line={n} case={d.caseNo} clause={cl.name}"
+              d := { d with specfails := d.specfails + 1 }
+            | none => pure ()
+          | none =>
+            IO.println s!"BADLINE line={n}"
+            d := { d with badlines := d.badlines + 1 }
+        | _ =>
+          IO.println s!"BADLINE line={n}"
+          d := { d with badlines := d.badlines + 1 }
       if withResults then d := { d with h200 := d.h200 + 1 } else d := { d with h404 := d.h404 + 1 }
       if isAction then d := { d with hActions := d.hActions + 1 }
       if verb == "delete" then d := { d with hDeletes := d.hDeletes + 1 }
       if wantJoin then
         match mres with
         | .ok objs =>
-          let cand := (objs.filter fun o => d.inv.contains (hostOf o)).length
+          let cand := (objs.flatMap joinCands).length
           d := { d with hJoinShown := d.hJoinShown + mjoin.length, hJoinHidden := d.hJoinHidden + (cand - mjoin.length) }
           if cand > mjoin.length && mjoin.length > 0 then d := { d with caseNontrivial := true }
         | .error _ => pure ()
@@ -537,6 +572,84 @@ def handleG (d : DSt) (n : Nat) (pre post : List String) : IO DSt := do
     | _, _ => bad d n
   | _, _ => bad d n
 
+def unhex (s : String) : Option String :=
+  if s == "-" then some "" else
+  let rec go : List Char → Option (List Char)
+    | [] => some []
+    | a :: b :: rest =>
+      let v (c : Char) : Option Nat :=
+        if '0' ≤ c && c ≤ '9' then some (c.toNat - '0'.toNat)
+        else if 'a' ≤ c && c ≤ 'f' then some (c.toNat - 'a'.toNat + 10) else none
+      match v a, v b, go rest with
+      | some x, some y, some r => some (Char.ofNat (x * 16 + y) :: r)
+      | _, _, _ => none
+    | _ => none
+  (go s.toList).map String.ofList
+
+def parseAUsers (s : String) : Option (List AUser) :=
+  if s == "-" then some [] else
+  (s.splitOn ",").mapM fun part =>
+    match part.splitOn ":" with
+    | [nm, pw, cn] => do
+      let pw ← unhex pw
+      let cn ← unhex cn
+      pure ({ name := nm, password := pw, clientCN := cn } : AUser)
+    | _ => none
+
+def handleAuth (d : DSt) (n : Nat) (pre post : List String) : IO DSt := do
+  match pre, post with
+  | ["K", us], _ =>
+    match parseAUsers us with
+    | some l => return { d with authUsers := l }
+    | none => bad d n
+  | ["B", hh], res :: kvs =>
+    let decS := (kvOf kvs "dec").getD "-"
+    let decoded : Option (Option String) :=
+      if decS == "throw" then some none else if decS == "=" then some (some "")
+      else if decS == "-" then some (some "") else (unhex decS).map some
+    match unhex hh, decoded with
+    | some header, some dec =>
+      let m := authByHeader d.authUsers header dec
+      let mshow := match m with | .user u => u.name | .nobody => "none" | .throws => "throw"
+      let mut d := { d with steps := d.steps + 1, nAuth := d.nAuth + 1,
+                            nAuthOk := d.nAuthOk + (if res != "none" && res != "throw" then 1 else 0) }
+      if mshow != res then
+        IO.println s!"MISMATCH line={n} case={d.caseNo} what=auth impl={res} model={mshow}"
+        d := { d with mismatches := d.mismatches + 1 }
+      if res != "none" && res != "throw" then
+        -- attributed: the user record of that name (names are unique in the registry); an unknown name has no credential at all
+        let cl := match d.authUsers.find? (·.name == res) with
+          | some u => specAuthHeader header dec (some u)
+          | none => some Clause.attributedWithoutCredential
+        match cl with
+        | some c =>
+          IO.println s!"SPECFAIL line={n} case={d.caseNo} clause={c.name}"
+          d := { d with specfails := d.specfails + 1 }
+        | none => pure ()
+      return d
+    | _, _ => bad d n
+  | ["N", ch], [res] =>
+    match unhex ch with
+    | some cn =>
+      let cands := (authByCN d.authUsers cn).map (·.name)
+      let mut d := { d with steps := d.steps + 1, nAuth := d.nAuth + 1, nAuthOk := d.nAuthOk + (if res != "none" then 1 else 0) }
+      -- which of several users with that CN is returned is the registry's business
+      if !(if res == "none" then cands.isEmpty else cands.contains res) then
+        IO.println s!"MISMATCH line={n} case={d.caseNo} what=auth impl={res} model={",".intercalate cands}"
+        d := { d with mismatches := d.mismatches + 1 }
+      if res != "none" then
+        let cl := match d.authUsers.find? (·.name == res) with
+          | some u => specAuthCN cn (some u)
+          | none => some Clause.attributedWithoutCredential
+        match cl with
+        | some c =>
+          IO.println s!"SPECFAIL line={n} case={d.caseNo} clause={c.name}"
+          d := { d with specfails := d.specfails + 1 }
+        | none => pure ()
+      return d
+    | none => bad d n
+  | _, _ => bad d n
+
 def handle (d : DSt) (n : Nat) (line : String) : IO DSt := do
   let ws := words line
   let (pre, post) := splitBar ws
@@ -547,7 +660,7 @@ def handle (d : DSt) (n : Nat) (line : String) : IO DSt := do
     match parseInv inv with
     | some objs =>
       let d := closeCase d
-      return { d with inv := objs, user := [], readsService := false, userRaises := false, caseNo := d.caseNo + 1, caseHash := mixHash 7 (hash inv), seenOutcomes := [] }
+      return { d with inv := objs, invJoins := parseInvJoins inv, user := [], readsService := false, userRaises := false, caseNo := d.caseNo + 1, caseHash := mixHash 7 (hash inv), seenOutcomes := [] }
     | none => bad d n
   | "P" :: _ =>
     let d := { d with caseHash := mixHash d.caseHash (hash (" ".intercalate pre)), seenOutcomes := [] }
@@ -556,6 +669,9 @@ def handle (d : DSt) (n : Nat) (line : String) : IO DSt := do
   | "A" :: _ => handleA d n pre post
   | "H" :: _ => handleH d n pre post
   | "G" :: _ => handleG d n pre post
+  | "K" :: _ => handleAuth d n pre post
+  | "B" :: _ => handleAuth d n pre post
+  | "N" :: _ => handleAuth d n pre post
   | w :: _ => if w.startsWith "#" then return d else bad d n
 
 def main : IO Unit := do
@@ -563,4 +679,4 @@ def main : IO Unit := do
   let shared := (← IO.getEnv "VERIF_C18_SHARED_FRAME") == some "1"
   let d ← foldLines stdin handle ({ sharedFrame := shared } : DSt)
   let d := closeCase d
-  IO.println s!"STATS cases={d.caseNo} steps={d.steps} matches={d.nM} matches_granted={d.nMgranted} queries={d.nQ} access={d.nA} http={d.nH} http_200={d.h200} http_404={d.h404} http_actions={d.hActions} http_deletes={d.hDeletes} handlers={d.nG} handlers_200={d.g200} handlers_compared={d.gCompared} join_shown={d.hJoinShown} join_hidden={d.hJoinHidden} order_pairs={d.orderPairs} or_order_tolerated={d.orderTolerated} service_reading_two_type_named={d.readsServiceQueries} order_pairs_filtered={d.orderPairsMixed} ok_nonempty={d.okNonEmpty} ok_empty={d.okEmpty} err_perm={d.errPerm} err_denied={d.errDenied} err_notfound={d.errNotFound} err_type={d.errType} err_other={d.errOther} path_single={d.pathSingle} path_plural={d.pathPlural} path_filter_eval={d.pathFilterEval} path_fast={d.pathFast} path_all={d.pathAll} perm_filtered={d.permFiltered} multi_match={d.multiMatch} mixed_match={d.mixedMatch} filtered_out={d.filteredOut} nontrivial={d.nontrivial} mismatches={d.mismatches} specfails={d.specfails} badlines={d.badlines}"
+  IO.println s!"STATS cases={d.caseNo} steps={d.steps} matches={d.nM} matches_granted={d.nMgranted} queries={d.nQ} access={d.nA} http={d.nH} http_200={d.h200} http_404={d.h404} http_actions={d.hActions} http_deletes={d.hDeletes} auth={d.nAuth} auth_attributed={d.nAuthOk} handlers={d.nG} handlers_200={d.g200} handlers_compared={d.gCompared} join_shown={d.hJoinShown} join_hidden={d.hJoinHidden} order_pairs={d.orderPairs} or_order_tolerated={d.orderTolerated} service_reading_two_type_named={d.readsServiceQueries} order_pairs_filtered={d.orderPairsMixed} ok_nonempty={d.okNonEmpty} ok_empty={d.okEmpty} err_perm={d.errPerm} err_denied={d.errDenied} err_notfound={d.errNotFound} err_type={d.errType} err_other={d.errOther} path_single={d.pathSingle} path_plural={d.pathPlural} path_filter_eval={d.pathFilterEval} path_fast={d.pathFast} path_all={d.pathAll} perm_filtered={d.permFiltered} multi_match={d.multiMatch} mixed_match={d.mixedMatch} filtered_out={d.filteredOut} nontrivial={d.nontrivial} mismatches={d.mismatches} specfails={d.specfails} badlines={d.badlines}"
